@@ -170,9 +170,9 @@ pub fn run(ctx: &Ctx) {
     let s = sub("docs");
     let p = DocParams { ws: 2, dup_keys: true, max_depth: 6, ..DocParams::default() };
     let pc = p.clone();
-    ctx.search(&s, "dup-keys", ctx.n(300_000, 3_000_000), 600, &move |src: &mut Src| gens::gen_doc(src, &pc));
+    ctx.search(&s, "dup-keys", ctx.n(1_200_000, 9_600_000), 600, &move |src: &mut Src| gens::gen_doc(src, &pc));
     let pc = DocParams { ws: 1, dup_keys: false, max_depth: 8, max_items: 10, ..DocParams::default() };
-    ctx.search(&s, "plain", ctx.n(300_000, 3_000_000), 1200, &move |src: &mut Src| gens::gen_container_doc(src, &pc));
+    ctx.search(&s, "plain", ctx.n(1_200_000, 9_600_000), 1200, &move |src: &mut Src| gens::gen_container_doc(src, &pc));
 
     // alignment sweep: golden documents at every offset and padded to every length
     let s = sub("aligned");
